@@ -27,18 +27,22 @@ SLOTS = ["prediction_strategy", "mean_cache", "covar_cache", "interp_inner_prod"
          "fantasy_mean_cache", "fantasy_covar_cache", "cholesky_factor", "prior_distribution_memo",
          "variational_distribution_memo", "pseudo_points_memo", "amortized_exact_gp",
          "_cached_kernel_mat", "_cached_kernel_inv_root",
-         "covar_cache[fast_pred_samples]", "fantasy_covar_cache[fast_pred_samples]"]
+         "covar_cache[fast_pred_samples]", "fantasy_covar_cache[fast_pred_samples]",
+         "mean_cache[mask]", "mean_cache[fill]"]
+# memo names whose @cached method takes the nan policy as its argument (the key contains it) -> slots under mask / fill
+NAN_SLOTS = {"mean_cache": (16, 17)}
+NAN_POLICY_SRC = "settings.observation_nan_policy.value()"
 # memo names whose value has two representations -> slot of the representation built with the selecting setting ON
 VARIANT_SLOT = {"covar_cache": 14, "fantasy_covar_cache": 15}
 
 # prediction-relevant settings (ids = bit positions of CacheSM.Cell.ofMask; must agree with CacheSM.settingNames)
 SETTINGS = ["fast_pred_var", "fast_pred_samples", "lazily_evaluate_kernels", "max_cholesky_size", "detach_test_caches",
-            "skip_posterior_variances", "max_eager_kernel_size", "trace_mode"]
+            "skip_posterior_variances", "max_eager_kernel_size", "trace_mode", "observation_nan_policy"]
 # guard atoms of the access walker: settings.<name>.on()  ->  (atom, Lean expression over the cell `c`)
 SETTING_ATOM = {"fast_pred_var": ("fpv", "c.fpv"), "fast_pred_samples": ("fps", "c.fps"),
                 "lazily_evaluate_kernels": ("lazy", "(!c.eager)"), "detach_test_caches": ("detach", "(!c.keepGraph)"),
                 "skip_posterior_variances": ("skip", "c.skip"), "trace_mode": ("trace", "c.trace")}
-ATOM_LEAN = dict(list(SETTING_ATOM.values()) + [("wiski", "w"), ("nan", "nan")])
+ATOM_LEAN = dict(list(SETTING_ATOM.values()) + [("wiski", "w"), ("nan", "c.nan")])
 ATOM_SETTING = {a: n for n, (a, _) in SETTING_ATOM.items()}
 STRATEGIES = ["DefaultPredictionStrategy", "InterpolatedPredictionStrategy", "RFFPredictionStrategy", "SGPRPredictionStrategy"]
 MEMO_API = ("pop_from_cache", "add_to_cache", "get_from_cache")
@@ -611,7 +615,16 @@ class Walker:
                 owner, fn = r
                 cd = cached_decorator(fn)
                 if cd is not None:
-                    return self.seq(args, env, frame, lambda e: mk_ops([("read", cd[0])], k(e)))
+                    op = ("read", cd[0])
+                    if args and not cd[1]:
+                        # the memo key contains the arguments: only `name[nan policy]` is in the vocabulary
+                        a0 = args[0]
+                        is_pol = len(args) == 1 and (_src(a0) == NAN_POLICY_SRC or
+                                                     (isinstance(a0, ast.Name) and env.get(a0.id) == ("nan",)))
+                        if not is_pol or cd[0] not in NAN_SLOTS:
+                            raise TranslateError(f"memo key of `{cd[0]}` depends on `{_src(node)}` (outside the vocabulary)")
+                        op = ("readpol", cd[0])
+                    return self.seq(args, env, frame, lambda e: mk_ops([op], k(e)))
                 if is_property(fn):      # calling the value of a property
                     return self.inline(owner, fn, [], env, frame, lambda e: self.seq(args, e, frame, k))
                 return self.seq(args, env, frame, lambda e: self.inline(owner, fn, node.args, e, frame, k))
@@ -666,7 +679,11 @@ class Walker:
                 if o[1] not in seen:
                     raise TranslateError(f"re-validation of `{o[1]}` without a preceding read")
                 continue
-            if o[0] == "read":
+            if o[0] == "readpol":
+                if (o[1], "pol") in seen:
+                    continue
+                seen = seen | {(o[1], "pol")}
+            elif o[0] == "read":
                 if o[1] in seen:
                     continue
                 seen = seen | {o[1]}
@@ -691,6 +708,9 @@ def render_tree(t, slot):
     for o in t[1]:
         if o[0] == "read":
             items.append(f".read {slot(o[1])}")
+        elif o[0] == "readpol":
+            m_, f_ = NAN_SLOTS[o[1]]
+            items.append(f".read (if c.nanFill then {f_} else if c.nanMask then {m_} else {slot(o[1])})")
         elif o[0] == "readKeyed":
             s_on, s_off, g = VARIANT_SLOT[o[1]], slot(o[1]), SETTING_ATOM[o[2]][1]
             items.append(f".readKeyed (if {g} then {s_on} else {s_off}) (if {g} then {s_off} else {s_on}) {'true' if o[3] else 'false'}")
@@ -785,7 +805,7 @@ class Translator:
                     var = SETTINGS.index(v[0])
                 # other memo names the body reads, on any path
                 body = w.block(fn.body, {}, {"owner": c, "stack": ((c, fn.name),), "kret": lambda: END}, lambda e: END)
-                deps = sorted({self.slot(o[1], f"{c}.{fn.name}") for o in tree_ops(body) if o[0] == "read"})
+                deps = sorted({self.slot(o[1], f"{c}.{fn.name}") for o in tree_ops(body) if o[0] in ("read", "readpol")})
                 body_settings = sorted(self.body_settings(cls, fn, set()))
             out.append({"slot": self.slot(name, f"{c}.{fn.name}"), "name": name, "ignore": ign, "hooked": hooked,
                         "owner": c, "method": fn.name, "variantOn": var, "deps": deps, "bodySettings": body_settings})
@@ -820,7 +840,7 @@ class Translator:
                 raise TranslateError(f"{cls}.exact_prediction creates a strategy object (outside the vocabulary)")
             trees[cls] = t
             parts.append(f"if cls == {ids.index(cls)} then {render_tree(t, lambda n: self.slot(n, cls))}")
-        return "fun cls w nan c =>\n      " + "\n      else ".join(parts) + "\n      else []", trees
+        return "fun cls w c =>\n      " + "\n      else ".join(parts) + "\n      else []", trees
 
     def fantasy_access(self):
         """-> (Lean `fun cls c => …` reads of get_fantasy_strategy, Lean `fun cls => …` names the new strategy is born with)"""
@@ -848,6 +868,66 @@ class Translator:
             born.append(f"if cls == {ids.index(cls)} then [{', '.join(str(self.slot(n, cls)) for n in names)}]")
         return ("fun cls c =>\n      " + "\n      else ".join(reads) + "\n      else []",
                 "fun cls =>\n      " + "\n      else ".join(born) + "\n      else []", trees)
+
+    def inst_attrs(self):
+        """attributes `self.x` assigned outside `__init__` by the prediction / variational strategies: state outside
+        `_memoize_cache`.  -> list of dict(cls, name, known, selfGuarded, readBeforeWrite)"""
+        ids = [n for n, _ in CLASSES]
+        skip = ("__init__", "__deepcopy__", "__getstate__", "__setstate__", "_clear_cache")
+        out = []
+        for cls in STRATEGIES + ["_VariationalStrategy", "VariationalStrategy", "UnwhitenedVariationalStrategy"]:
+            meths = {n: f for n, f in self.src.methods(cls).items() if n not in skip and not any(
+                isinstance(d, ast.Attribute) and d.attr == "setter" for d in f.decorator_list)}   # (a setter is configuration)
+            assigns, loads = {}, {}     # name -> [(method, guard path, lineno)]
+
+            def scan(stmts, meth, path):
+                for st in stmts:
+                    if isinstance(st, ast.If):
+                        for n in ast.walk(st.test):
+                            note_load(n, meth, path)
+                        scan(st.body, meth, path + [(id(st), "t", st.test)])
+                        scan(st.orelse, meth, path + [(id(st), "f", st.test)])
+                        continue
+                    if isinstance(st, (ast.For, ast.While, ast.With, ast.Try)):
+                        for sub in ("body", "orelse", "finalbody"):
+                            scan(getattr(st, sub, []) or [], meth, path + [(id(st), sub, None)])
+                        for h in getattr(st, "handlers", []) or []:
+                            scan(h.body, meth, path + [(id(st), "h", None)])
+                        continue
+                    if isinstance(st, (ast.FunctionDef, ast.ClassDef)):
+                        continue
+                    targets = st.targets if isinstance(st, ast.Assign) else ([st.target] if isinstance(st, (ast.AugAssign, ast.AnnAssign)) else [])
+                    for n in ast.walk(st):
+                        if not any(n is t for t in targets):
+                            note_load(n, meth, path, st.lineno)
+                    for t in targets:
+                        for n in ([t] if not isinstance(t, (ast.Tuple, ast.List)) else t.elts):
+                            if is_self_attr(n):
+                                assigns.setdefault(n.attr, []).append((meth, path, st.lineno))
+
+            def note_load(n, meth, path, lineno=None):
+                if is_self_attr(n) and isinstance(n.ctx, ast.Load):
+                    loads.setdefault(n.attr, []).append((meth, path, lineno if lineno is not None else n.lineno))
+                elif (isinstance(n, ast.Call) and isinstance(n.func, ast.Name) and n.func.id in ("getattr", "hasattr") and len(n.args) >= 2
+                      and isinstance(n.args[0], ast.Name) and n.args[0].id == "self" and isinstance(n.args[1], ast.Constant)):
+                    loads.setdefault(n.args[1].value, []).append((meth, path, n.lineno))
+            for mname, fn in meths.items():
+                scan(fn.body, mname, [])
+            for name, sites in sorted(assigns.items()):
+                def mentions(test):
+                    return test is not None and any(
+                        (is_self_attr(n, name)) or (isinstance(n, ast.Constant) and n.value == name) for n in ast.walk(test))
+                self_guarded = any(mentions(g[2]) for _, path, _ in sites for g in path)
+                rbw = False
+                for lm, lpath, lline in loads.get(name, []):
+                    keys = [(g[0], g[1]) for g in lpath]
+                    dominated = any(am == lm and aline < lline and [(g[0], g[1]) for g in apath] == keys[:len(apath)]
+                                    for am, apath, aline in sites)
+                    rbw = rbw or not dominated
+                out.append({"cls": ids.index(cls), "clsname": cls, "name": name,
+                            "known": 1 if name == "_last_test_train_covar" else 0,
+                            "selfGuarded": self_guarded, "readBeforeWrite": rbw})
+        return out
 
     def ctor_clones(self):
         """class ids whose `__init__` registers `inducing_points` (parameter or buffer) from a *copy* of the tensor it
@@ -1298,6 +1378,7 @@ class Translator:
         (T["fantasyNeedsStrategy"], T["fantasyNulled"], T["fantasyRestored"], T["fantasyRestoreInFinally"]) = self.fantasy()
         T["hookClearsWholeMemo"], T["memoKeyHonoursArgs"] = self.memoize()
         T["ctorClones"] = self.ctor_clones()
+        T["instAttrs"] = self.inst_attrs()
         T["access"], self.access_trees = self.access()
         T["fantasyAccess"], T["fantasyBorn"], self.fantasy_trees = self.fantasy_access()
         T["unmodelled"] = self.unmodelled_subclasses()
@@ -1369,6 +1450,9 @@ class Translator:
         L.append(f"    hookClearsWholeMemo := {b(T['hookClearsWholeMemo'])},")
         L.append(f"    memoKeyHonoursArgs := {b(T['memoKeyHonoursArgs'])},")
         L.append(f"    ctorClones := {T['ctorClones']},")
+        L.append("    -- " + "; ".join(f"{a['clsname']}.{a['name']}" for a in T["instAttrs"]))
+        L.append("    instAttrs := [" + ", ".join(f"⟨{a['cls']}, {a['known']}, {b(a['selfGuarded'])}, {b(a['readBeforeWrite'])}⟩"
+                                                  for a in T["instAttrs"]) + "],")
         L.append(f"    access := {T['access']},")
         L.append(f"    fantasyAccess := {T['fantasyAccess']},")
         L.append(f"    fantasyBorn := {T['fantasyBorn']} }}")
